@@ -155,6 +155,11 @@ def run_impl(cases):
         early = {v: J.outcome_of(lambda: S.Partial(root, v, compute_early=True), conv=lambda o: o, timeout=10) for v in qv} if c.get("early") else {}
         early_diff = J.outcome_of(lambda: S.Differential(root, compute_early=True), conv=lambda o: o, timeout=10) if c.get("early") else None
         lived_diff = S.Differential(root)          # ONE late Differential for all points of the case
+        # another root that SHARES a composite sub-expression object of this one (the deepest-built composite below the root, else the root)
+        comp = [o for n, o in zip(heap[:-1], objs[:-1]) if n["op"] not in ("Variable", "Constant")]
+        shared_root = J.outcome_of(lambda: S.Negation(comp[-1] if comp else root), conv=lambda o: o)
+        if isinstance(shared_root, dict):
+            shared_root = None
         allpts = []
         for p in c["pts"]:
             try:
@@ -167,7 +172,7 @@ def run_impl(cases):
             except Exception as exc:       # a legal coordinate name the Point constructor cannot take: every route fails with it
                 bad = {"k": "PyError", "t": type(exc).__name__}
                 row["at"].append(bad)
-                row["outs"].append([{"pa": bad, "pa2": bad, "pe": {"k": "na"}, "ld": bad, "da": bad, "da2": bad, "dae": {"k": "na"}} for _ in qv])
+                row["outs"].append([{"pa": bad, "pa2": bad, "pe": {"k": "na"}, "ld": bad, "ld2": bad, "da": bad, "da2": bad, "dae": {"k": "na"}} for _ in qv])
                 row["svs"].append([{"k": "ill"} for _ in qv])
                 row["dv"].append(bad if len(vs) <= 1 else {"k": "na"})
                 continue
@@ -190,6 +195,16 @@ def run_impl(cases):
                     ld_obj = r
             except Exception as exc:  # pragma: no cover
                 ld_err = {"k": "PyError", "t": type(exc).__name__}
+            # reverse mode A-B-A across a SHARED sub-expression object (seed C04_r3mut1): the gradient at pt, then ANOTHER root built on
+            # one of this root's composite sub-expression objects is evaluated at another point, then the gradient at pt once more
+            ld2_err, ld2_obj = None, None
+            if shared_root is not None and allpts[(j + 1) % len(allpts)] is not None:
+                J.outcome_of(lambda: shared_root.at(allpts[(j + 1) % len(allpts)]))
+            r = J.outcome_of(lambda: S.LocatedDifferential(root, pt), conv=lambda o: o)
+            if isinstance(r, dict):
+                ld2_err = r
+            else:
+                ld2_obj = r
             da_err, da_obj = None, None
             r = J.outcome_of(lambda: S.Differential(root).at(pt), conv=lambda o: o)
             if isinstance(r, dict):
@@ -213,6 +228,7 @@ def run_impl(cases):
                 dae = {"k": "na"} if dae_obj is None else (dae_obj if isinstance(dae_obj, dict) else J.outcome_of(lambda: dae_obj.component(varg)))
                 o = {"pa": J.outcome_of(lambda: S.Partial(root, varg).at(pt)), "pa2": pa2, "pe": pe, "da2": da2, "dae": dae,
                      "ld": ld_err if ld_err else J.outcome_of(lambda: ld_obj.component(varg)),
+                     "ld2": ld2_err if ld2_err else J.outcome_of(lambda: ld2_obj.component(varg)),
                      "da": da_err if da_err else J.outcome_of(lambda: da_obj.component(varg))}
                 per_v.append(o)
                 if set(vs) <= set(p):
